@@ -93,10 +93,11 @@ Definition init_conn (c : conn_config) : sockopts :=
 (** what the socket option should be for a configured size *)
 Definition requested (size : N) : option N := if size =? 0 then None else Some size.
 
-(** Linux reports twice the value that was set (and the default when nothing
-    was set); the harness keeps sizes inside [min, rmem_max/wmem_max]. *)
-Definition kernel_reports (def : N) (o : option N) : N :=
-  match o with None => def | Some v => 2 * v end.
+(** Linux reports twice the value that was set, capped at the kernel limit
+    (net.core.rmem_max / wmem_max), and the default when nothing was set; the
+    harness keeps sizes above the kernel's minimum.  [lim] = (default, max). *)
+Definition kernel_reports (lim : N * N) (o : option N) : N :=
+  match o with None => fst lim | Some v => 2 * N.min v (snd lim) end.
 
 (** ------------------------------------------------------------------
     Correspondence cases. *)
@@ -139,10 +140,10 @@ Inductive case :=
          (links : list N)                (* kind + 3 * origin per configured link *)
          (impl : list N)                 (* conn.Config of the Open made for that link *)
 | CChain (receive send batch : N) (reuse_local : bool) (links : list N)
-         (def_rcv def_snd : N)           (* kernel defaults *)
+         (def_rcv max_rcv def_snd max_snd : N)   (* kernel defaults and limits *)
          (impl : list N)                 (* getsockopt (SO_RCVBUF, SO_SNDBUF) of the link's socket *)
 | CSock (receive send : N)               (* conn.Config given to conn.New *)
-        (def_rcv def_snd : N)            (* kernel defaults (socket opened with a zero config) *)
+        (def_rcv max_rcv def_snd max_snd : N)  (* kernel defaults (zero config) and limits *)
         (impl_rcv impl_snd : N).         (* getsockopt SO_RCVBUF / SO_SNDBUF afterwards *)
 
 Definition model_links (c : router_config) (reuse : bool) (links : list (N * N)) : option (list obs) :=
@@ -153,14 +154,14 @@ Definition model_links (c : router_config) (reuse : bool) (links : list (N * N))
     end) (Some []) links.
 
 (** what the kernel reports for the socket of a link, through the whole chain *)
-Definition reports (dr ds : N) (o : option conn_config) : obs :=
+Definition reports (dr ds : N * N) (o : option conn_config) : obs :=
   match o with
   | None => None
   | Some c => let so := init_conn c in
               Some (kernel_reports dr (so_rcvbuf so), kernel_reports ds (so_sndbuf so))
   end.
 
-Definition model_chain (c : router_config) (reuse : bool) (dr ds : N) (links : list (N * N))
+Definition model_chain (c : router_config) (reuse : bool) (dr ds : N * N) (links : list (N * N))
   : option (list obs) :=
   fold_right (fun l acc =>
     match acc, kind_of (fst l) with
@@ -170,7 +171,7 @@ Definition model_chain (c : router_config) (reuse : bool) (dr ds : N) (links : l
 
 (** the property on one observed socket: the kernel reports what it reports for
     "receive size requested as SO_RCVBUF, send size requested as SO_SNDBUF" *)
-Definition sock_ok (c : router_config) (dr ds : N) (o : obs) : bool :=
+Definition sock_ok (c : router_config) (dr ds : N * N) (o : obs) : bool :=
   match o with
   | None => true
   | Some (r, s) => N.eqb r (kernel_reports dr (requested (rc_receive c))) &&
@@ -185,14 +186,16 @@ Definition check (x : case) : N :=
     | Some m, Some impl => Check.verdict (list_eqb obs_eqb m impl) (forallb (obs_ok c) impl)
     | _, _ => 1
     end
-  | CChain r s b reuse links dr ds impl =>
+  | CChain r s b reuse links dr mr ds ms impl =>
     let c := {| rc_receive := r; rc_send := s; rc_batch := b |} in
+    let dr := (dr, mr) in let ds := (ds, ms) in
     match model_chain c reuse dr ds (links_of links), obs_list_of (S (length impl)) impl with
     | Some m, Some impl => Check.verdict (list_eqb obs_eqb m impl) (forallb (sock_ok c dr ds) impl)
     | _, _ => 1
     end
-  | CSock r s dr ds ir is_ =>
+  | CSock r s dr mr ds ms ir is_ =>
     let o := init_conn {| cc_send := s; cc_receive := r |} in
+    let dr := (dr, mr) in let ds := (ds, ms) in
     Check.verdict
       (N.eqb (kernel_reports dr (so_rcvbuf o)) ir && N.eqb (kernel_reports ds (so_sndbuf o)) is_)
       (N.eqb (kernel_reports dr (requested r)) ir && N.eqb (kernel_reports ds (requested s)) is_)
@@ -203,12 +206,13 @@ Definition diag (x : case) : list obs :=
   | CPlumb r s b reuse links _ =>
     match model_links {| rc_receive := r; rc_send := s; rc_batch := b |} reuse (links_of links) with
     | Some m => m | None => [] end
-  | CChain r s b reuse links dr ds _ =>
-    match model_chain {| rc_receive := r; rc_send := s; rc_batch := b |} reuse dr ds (links_of links) with
+  | CChain r s b reuse links dr mr ds ms _ =>
+    match model_chain {| rc_receive := r; rc_send := s; rc_batch := b |} reuse (dr, mr) (ds, ms)
+                      (links_of links) with
     | Some m => m | None => [] end
-  | CSock r s dr ds _ _ =>
+  | CSock r s dr mr ds ms _ _ =>
     let o := init_conn {| cc_send := s; cc_receive := r |} in
-    [Some (kernel_reports dr (so_rcvbuf o), kernel_reports ds (so_sndbuf o))]
+    [Some (kernel_reports (dr, mr) (so_rcvbuf o), kernel_reports (ds, ms) (so_sndbuf o))]
   end.
 
 End SockCfg.
